@@ -40,6 +40,7 @@ def REQUIRED(tier):  # noqa: N802
     return {"run_pairs": 60, "pairs[binpacking]": 30, "pairs[tsp]": 8,
             "pairs[ttp]": 6, "pairs[qap]": 6, "pairs[instgen]": 1,
             "pairs[control_raw]": 1, "from_log_checks": 20,
+            "repetitions_on_a_slow_machine": 60,
             "binpacking_runs_on_custom_instances": 12,
             "fea_runs_logging_the_h_table": 2,
             "pairs[control_surrogate]": 0 if tier == "quick" else 1}
@@ -65,6 +66,9 @@ def plan(tier: str, seed: int):
 
 
 # -- own log reader -----------------------------------------------------------
+from vlib.monitors.clockwarp import slow_machine  # noqa: E402
+
+
 def read_log(path):
     secs: dict[str, list[str]] = {}
     cur = None
@@ -411,8 +415,19 @@ def run_pair(ctx, domain, setup, build, budget, seed):
             log = os.path.join(work, f"run{rep}.txt")
             setup["log"] = log
             try:
-                lives.append(execute(ctx, build, budget, seed, log,
-                                     setup.get("make_y")))
+                if rep == 0:
+                    lives.append(execute(ctx, build, budget, seed, log,
+                                         setup.get("make_y")))
+                else:
+                    # the repetition runs on a machine a million times
+                    # slower: every wall-clock limit that somebody put into
+                    # an evaluation-budgeted run fires
+                    with slow_machine() as seen:
+                        lives.append(execute(ctx, build, budget, seed, log,
+                                             setup.get("make_y")))
+                    ctx.count("repetitions_on_a_slow_machine")
+                    ctx.count("wall_clock_limits_seen_in_fe_budgeted_runs",
+                              seen.timers)
             except Budget:
                 ctx.count("undecided_pairs_rhs_budget")
                 return
